@@ -465,7 +465,7 @@ def outside_cases(tier, rng):
     prefix inputs (quick: (2, 2) HAP1/HAP2 and (2, 1, 1) HAP1/HAP2/none, two interleavings each; thorough: every count
     vector with <= 4 scaffolds in all, every prefix set, every interleaving) x
       joined  every pair of scaffolds (quick: two pairs per input, rotating) in one Pretext scaffold, orientations
-              rotating, both pieces tagged alike from OUTSIDE_TAGS (quick: two tag sets per pair, rotating)
+              rotating, both pieces tagged alike from OUTSIDE_TAGS (two tag sets per pair, thorough three, rotating)
       broken  each multi-contig scaffold (quick: one) split at its gaps, the pieces tagged alike
       source  seeded edit scripts in which every piece of one input scaffold carries the tag
     """
@@ -492,7 +492,7 @@ def outside_cases(tier, rng):
                     pairs = [pairs[(5 * i + j * 7) % len(pairs)] for j in range(2)]
                 maps = []
                 for pi, (a, b) in enumerate(pairs):
-                    tagsets = OUTSIDE_TAGS if not quick else [OUTSIDE_TAGS[(i + pi + j) % 5] for j in (0, 2)]
+                    tagsets = [OUTSIDE_TAGS[(i + pi + j) % 5] for j in ((0, 2) if quick else (0, 2, 4))]
                     for ti, tags in enumerate(tagsets):
                         maps.append(joined_map(inp, bpt, a, b, orient[(i + pi + ti) % 4], tags, (i + pi + ti) % 3 == 0))
                 for a in range(n) if not quick else [i % n]:
@@ -676,7 +676,7 @@ def _run(tier, seed, **opts):
         if r is not None and hap != r[3]:
             stats["haplotig pieces != haplotig scaffolds"] += 1
         col.case(
-            pg.case_key(case),
+            hash(pg.case_key(case)),  # 64-bit hash of the identity: the distinct count needs no more, and the keys of a thorough run would fill 1 GB
             nontrivial=r is not None and (sum(r[:3]) > 0 or rev or hap > 0),
             sample={"family": fam, **case} if (r and sum(r[:3]) > 2 and n % 797 == 0) else None,
         )
